@@ -33,6 +33,10 @@ extern uint32_t nni_pipe_id(nni_pipe *);
 // actual pipe will be reaped asynchronously.
 extern void nni_pipe_close(nni_pipe *);
 
+// nni_pipe_is_closed reports whether nni_pipe_close has been called (the pipe
+// may still wait for the reaper).
+extern bool nni_pipe_is_closed(nni_pipe *);
+
 extern uint16_t nni_pipe_peer(nni_pipe *);
 
 // nni_pipe_getopt looks up the option.
